@@ -1018,7 +1018,7 @@ func (c *Ctx) ruleRemainingLength(rr *RuleRep) {
 		rr.Lost("pack", "not found")
 	}
 	// decoder mirror constants
-	if rp := c.Func("readPacket"); rp != nil {
+	if rp := c.readFunc(); rp != nil {
 		has7F, has80, stride7 := false, false, false
 		eachInstr(rp, func(in ssa.Instruction) {
 			b, ok := in.(*ssa.BinOp)
